@@ -48,9 +48,18 @@ def run(ctx):
                 seg = it.construct(cq, *PC)
                 for args in ((), (1, 0)):
                     it.call_method(seg, 'length', *args)
-                return it.call_method(it.call_method(seg, 'reversed'), 'point', T)
+                for warm in ('poly', 'bpoints', 'bbox'):       # every argument-less query that may fill a cache
+                    if warm in seg.cls.methods:
+                        try:
+                            it.call_method(seg, warm)
+                        except Undecidable:
+                            pass
+                rev = it.call_method(seg, 'reversed')
+                pl = it.call_method(rev, 'poly')
+                return it.call_method(rev, 'point', T), (pl(T) if isinstance(pl, PolyT) else Rat.sym('notpoly')), list(it.call_method(rev, 'bpoints'))
             ob('R09.1').run(f, '%s.reversed().point(t) == point(1-t) after length() was measured (concrete control points)' % cname, th_rev_measured,
-                            lambda v, PC=PC: decide_equal(v, bernstein(PC, 1 - T)),
+                            lambda v, PC=PC: decide_all_equal([('point', v[0], bernstein(PC, 1 - T)), ('poly()', v[1], bernstein(PC, 1 - T))] +
+                                                              [('bpoints()[%d]' % i, b_, PC[len(PC) - 1 - i]) for i, b_ in enumerate(v[2])]),
                             opts={'globals': {('*', '_quad_available'): False}, 'call_hooks': {'path.segment_length': lambda it, a, k: Rat.sym('SEGLEN')}})
         f = mdl.func(cq + '.split')
 
